@@ -1,0 +1,60 @@
+//go:build verif
+
+package api
+
+// Contracts for the govc verifier (see /verif/DESIGN.md). Comment-only: declares nothing.
+
+//@ purepkg github.com/mitchellh/mapstructure
+
+// ---- C17: the task-message store as ghost state ----------------------------------------------
+// storeDom / storeVal: the api.ReplicateStore behind ReplicateMeteImpl.store, as a ghost map.
+// Put/Remove either succeed and change exactly that key, or fail and change nothing (assumed
+// contract of the interface; both implementations issue a single etcd / SQL request).
+//@ ghost var storeDom set[string]
+//@ ghost var storeVal map[string]MetaMsg
+
+//@ trusted func (ReplicateStore).Put
+//@   params recv ctx key value
+//@   ensures err == nil ==> storeDom == setAdd(old(storeDom), key) && storeVal == mapSet(old(storeVal), key, value)
+//@   ensures err != nil ==> storeDom == old(storeDom) && storeVal == old(storeVal)
+//@   modifies storeDom, storeVal
+
+//@ trusted func (ReplicateStore).Remove
+//@   params recv ctx key
+//@   ensures err == nil ==> storeDom == setDel(old(storeDom), key) && storeVal == old(storeVal)
+//@   ensures err != nil ==> storeDom == old(storeDom) && storeVal == old(storeVal)
+//@   modifies storeDom, storeVal
+
+// IsReady: equal as sets for duplicate-free channel lists (assumed contract: the body sorts both
+// lists in place and compares them element-wise; lo.Union yields duplicate-free lists and target
+// channel lists are duplicate-free).  It permutes the two backing arrays, so their element sets stay.
+//@ trusted func (BaseTaskMsg).IsReady
+//@   ensures result == (forall x string :: x in setOf(msg.TargetChannels) <==> x in setOf(msg.ReadyChannels))
+//@   ensures setOf(msg.TargetChannels) == old(setOf(msg.TargetChannels)) && setOf(msg.ReadyChannels) == old(setOf(msg.ReadyChannels))
+//@   modifies msg.TargetChannels[*], msg.ReadyChannels[*]
+
+//@ func (TaskDropCollectionMsg).ConvertToMetaMsg
+//@   props C17
+//@   ensures err == nil ==> result0.Base == msg.Base && result0.Type == DropCollectionMetaMsgType
+//@   modifies nothing
+//@   panics never
+
+//@ func (TaskDropPartitionMsg).ConvertToMetaMsg
+//@   props C17
+//@   ensures err == nil ==> result0.Base == msg.Base && result0.Type == DropPartitionMetaMsgType
+//@   modifies nothing
+//@   panics never
+
+//@ func GetTaskDropCollectionMsg
+//@   props C17
+//@   ensures err == nil ==> result0.Base == msg.Base && msg.Type == DropCollectionMetaMsgType
+//@   ensures msg.Type != DropCollectionMetaMsgType ==> err != nil
+//@   modifies nothing
+//@   panics never
+
+//@ func GetTaskDropPartitionMsg
+//@   props C17
+//@   ensures err == nil ==> result0.Base == msg.Base && msg.Type == DropPartitionMetaMsgType
+//@   ensures msg.Type != DropPartitionMetaMsgType ==> err != nil
+//@   modifies nothing
+//@   panics never
